@@ -334,4 +334,131 @@ example :
   intro C
   refine ⟨by decide +kernel, by decide +kernel, by decide +kernel, by decide +kernel, by decide +kernel⟩
 
+/-! ### return to normal under any mix of manual and ICT-based increments -/
+
+theorem reachA_quad (C : Cfg) (w : WF C) (w2 : WF2 C) : ∀ s, C05.ReachA C s → Quad C s := by
+  intro s hs
+  induction hs with
+  | init => exact Quad.init w
+  | fail s l rep _ hl _ ih => exact ih.afterFail w w2 l hl rep
+  | step s dt _ _ ih => exact ih.step w w2 dt
+  | stepA s dt cm _ _ ih => exact ih.stepA w w2 dt cm
+
+theorem reachA_tl (C : Cfg) (w2 : WF2 C) : ∀ s, C05.ReachA C s → TL C s := by
+  intro s hs
+  induction hs with
+  | init => exact TL.init C
+  | fail s l rep _ _ _ ih => exact ih.afterFail l rep
+  | step s dt _ _ ih => exact ih.step w2 dt
+  | stepA s dt cm _ _ ih => exact ih.stepA w2 dt cm
+
+theorem reachA_nf (C : Cfg) (w : WF C) (w2 : WF2 C) : ∀ s, C05.ReachA C s → NF C s := by
+  intro s hs
+  induction hs with
+  | init => exact NF.init C
+  | fail s l rep _ hl _ ih => exact ih.afterFail w l hl rep
+  | step s dt _ _ ih => exact ih.step w w2 dt
+  | stepA s dt cm _ _ ih => exact ih.stepA w w2 dt cm
+
+theorem reachA_foldl (C : Cfg) (dt : ℚ) (hdt : 0 < dt) (ins : List (Option Comm)) (s : St) (hs : C05.ReachA C s) :
+    C05.ReachA C (ins.foldl (stepM C dt) s) := by
+  induction ins generalizing s with
+  | nil => exact hs
+  | cons i is ih =>
+    simp only [List.foldl_cons]
+    apply ih
+    cases i with
+    | none => exact .step s dt hs hdt
+    | some cm => exact .stepA s dt cm hs hdt
+
+/-- a reachable state (any control mode) without failed lines is calm -/
+theorem reachA_calm (C : Cfg) (hC : wfB C = true) (hC2 : wfB2 C = true) (s : St) (hs : C05.ReachA C s)
+    (hrep : s.failed.all (!·) = true) (M : ℚ) (hbd : ∀ m, gr s.timer m ≤ M ∧ gr s.pTimer m ≤ M) : Run C s M M := by
+  have w := WF.of_wfB C hC
+  have w2 := WF2.of_wfB2 C hC2
+  have hf : ∀ l, gb s.failed l = false := gb_false_of_all_not _ hrep
+  obtain ⟨a1, a2⟩ := all_repaired_all_in_service C hC s hs hf
+  have tl := reachA_tl C w2 s hs
+  have nf := reachA_nf C w w2 s hs
+  have q := reachA_quad C w w2 s hs
+  refine ⟨⟨fun l _ => hf l, ?_, a2, ?_, reach_check_down C s hs, tl.tlen, tl.plen, q.triple.both.inv.sz⟩, tl.dist, fun m => ⟨(hbd m).2, (hbd m).1⟩⟩
+  · intro k hk
+    obtain ⟨n, hn, hkn⟩ := w2.sec_owned k hk
+    exact a1 n hn k hkn
+  · intro n
+    by_cases hn : n < C.nets.length
+    · cases hx : gb s.netFailed n
+      · rfl
+      · obtain ⟨l, _, hl⟩ := nf.why n hn hx
+        rw [hf l] at hl; exact absurd hl (by simp)
+    · unfold gb
+      rw [List.getD_eq_getElem?_getD, List.getElem?_eq_none (by rw [nf.nflen]; exact Nat.le_of_not_lt hn)]; rfl
+
+/-- **C06, return to normal under any control mode.**  Take any reachable state (any history of faults and of manual
+and ICT-based increments, with whatever the controllers could reach) in which no line is failed, and let `M ≥ 0` bound
+the sectioning timers still running.  Then after any `⌈M/dt⌉ + 2` or more further increments — each one manual or
+ICT-based with arbitrary reachability of sensors and switches — the system is in its normal configuration. -/
+theorem returns_to_normal_mixed (C : Cfg) (hC : wfB C = true) (hC2 : wfB2 C = true) (dt : ℚ) (hdt : 0 < dt)
+    (s : St) (hs : C05.ReachA C s) (hrep : s.failed.all (!·) = true)
+    (M : ℚ) (hM : 0 ≤ M) (hbd : ∀ m, gr s.timer m ≤ M ∧ gr s.pTimer m ≤ M)
+    (ins : List (Option Comm)) (hlen : ⌈M / dt⌉₊ + 2 ≤ ins.length) :
+    isNormal C (ins.foldl (stepM C dt) s) = true := by
+  have w := WF.of_wfB C hC
+  have w2 := WF2.of_wfB2 C hC2
+  set K := ⌈M / dt⌉₊ with hK
+  have hMK : M ≤ (K : ℚ) * dt := by
+    have := Nat.le_ceil (M / dt)
+    rw [div_le_iff₀ hdt] at this
+    exact this
+  -- split off the last two increments
+  obtain ⟨pre, i1, i2, hins⟩ : ∃ pre i1 i2, ins = pre ++ [i1, i2] := by
+    have hrr := List.reverse_reverse ins
+    cases hr : ins.reverse with
+    | nil => rw [hr] at hrr; rw [← hrr] at hlen; simp at hlen
+    | cons b t =>
+      cases t with
+      | nil => rw [hr] at hrr; rw [← hrr] at hlen; simp at hlen
+      | cons a rest =>
+        refine ⟨rest.reverse, a, b, ?_⟩
+        rw [hr] at hrr
+        rw [← hrr]; simp
+  have hpre : K ≤ pre.length := by
+    rw [hins] at hlen; simp at hlen; omega
+  have r0 := reachA_calm C hC hC2 s hs hrep M hbd
+  have h0 : Run C s (leftAfter M dt 0) (leftAfter M dt 0 + dt) := by
+    refine r0.weaken ?_ ?_
+    · unfold leftAfter; simp
+    · unfold leftAfter; simp only [Nat.cast_zero, zero_mul, sub_zero]; have := le_max_left M 0; linarith
+  have rK := calm_iterM w w2 M dt hdt pre 0 s h0
+  have hq : leftAfter M dt (0 + pre.length) = 0 := by
+    unfold leftAfter
+    apply max_eq_right
+    have : (K : ℚ) ≤ ((0 + pre.length : ℕ) : ℚ) := by exact_mod_cast (by omega : K ≤ 0 + pre.length)
+    nlinarith
+  rw [hq, zero_add] at rK
+  obtain ⟨rF, closed⟩ := calm_finishM w w2 _ dt hdt i1 i2 rK
+  have e : ins.foldl (stepM C dt) s = stepM C dt (stepM C dt (pre.foldl (stepM C dt) s) i1) i2 := by
+    rw [hins, List.foldl_append]; rfl
+  rw [e]
+  set z := stepM C dt (stepM C dt (pre.foldl (stepM C dt) s) i1) i2 with hz
+  have hzr : C05.ReachA C z := by
+    have := reachA_foldl C dt hdt ins s hs
+    rw [e] at this; exact this
+  have q := reachA_quad C w w2 z hzr
+  have nf := reachA_nf C w w2 z hzr
+  have sz := q.triple.both.inv.sz
+  obtain ⟨dcl, lin⟩ := q.g.all_back rF.calm.secs w closed w2
+  have h1 : z.cbOpen.all (!·) = true := all_not_of_gb _ (fun i hi => closed i (by rw [← sz.cbOpen]; exact hi))
+  have h2 : z.dOpen.all (!·) = true := all_not_of_gb _ (fun i hi => dcl i (by rw [← q.g.dlen]; exact hi))
+  have h3 : z.conn.all id = true := all_id_of_gb _ (fun i hi => lin i (by rw [← sz.conn]; exact hi))
+  have h4 : z.secConn.all id = true := all_id_of_gb _ (fun i hi => rF.calm.secs i (by rw [← sz.secConn]; exact hi))
+  have h5 : z.failed.all (!·) = true := all_not_of_gb _ (fun i hi => rF.calm.nofail i (by rw [← nf.flen]; exact hi))
+  have h6 : z.timer.all (· ≤ 0) = true := all_le_of_gr _ (fun i => (rF.bd i).2)
+  have h7 : z.pTimer.all (· ≤ 0) = true := all_le_of_gr _ (fun i => (rF.bd i).1)
+  have h8 : z.failedSecs.all (·.isEmpty) = true := all_empty_of_getD _ (fun i hi => rF.calm.nofs i (by rw [← sz.failedSecs]; exact hi))
+  have h9 : z.netFailed.all (!·) = true := all_not_of_gb _ (fun i _ => rF.calm.nonf i)
+  unfold isNormal
+  simp only [Bool.and_eq_true]
+  exact ⟨⟨⟨⟨⟨⟨⟨⟨h1, h2⟩, h3⟩, h4⟩, h5⟩, h6⟩, h7⟩, h8⟩, h9⟩
+
 end Relsad.C06
